@@ -241,9 +241,11 @@ fn differential(args: &Args, t0: Instant, quick: bool) -> Outcome {
         ("C16", checks::c16, 5),
         ("C17", checks::c17, 5),
         ("C18", checks::c18, 17),
+        ("C19-closed-cache", checks::c19_close_corpus, 1),
     ];
     for (name, mk, stride) in corp {
         let stride = if quick { stride } else { (stride / 4).max(1) };
+        let stride = stride.max(1);
         let s = mk("quick", Sync);
         for (i, j) in s.jobs.into_iter().enumerate() {
             if i % stride != 0 || !checks::is_settled(&j.program) {
@@ -336,7 +338,23 @@ fn run_check(id: &str, args: &Args) -> i32 {
             finish(merge("C07", vec![a, b], t0))
         }
         "C01" => run_spec(checks::c01(&args.tier, model::Flavor::Sync), args, t0),
-        "C02" => run_spec(checks::c02(&args.tier, model::Flavor::Sync), args, t0),
+        "C02" => {
+            let a = spec_outcome(checks::c02(&args.tier, model::Flavor::Sync), args, t0, args.secs * 2 / 3);
+            // the same entry points exist separately on the async flavour: every 3rd program of the
+            // corpus (quick; all of them in the thorough tier), preemption bounds capped at 1 in quick
+            let mut spec = checks::c02(&args.tier, model::Flavor::Async);
+            let quick = args.tier == "quick";
+            if quick {
+                spec.jobs = spec.jobs.into_iter().enumerate().filter(|(i, _)| i % 3 == 0).map(|(_, j)| j).collect();
+                for j in spec.jobs.iter_mut() {
+                    j.bounds.iter_mut().for_each(|b| *b = (*b).min(1));
+                }
+            }
+            spec.rule = format!("[async flavour{}] {}", if quick { ": every 3rd program, bounds <= 1" } else { "" }, spec.rule);
+            let mut b = spec_outcome(spec, args, t0, args.secs / 3);
+            b.property = "C02-async".into();
+            finish(merge("C02", vec![a, b], t0))
+        }
         "C06" => run_spec(checks::c06(&args.tier, model::Flavor::Sync), args, t0),
         "C08" => run_spec(checks::c08(&args.tier, model::Flavor::Sync), args, t0),
         "C10" => run_spec(checks::c10(&args.tier, model::Flavor::Sync), args, t0),
